@@ -2,6 +2,8 @@
 
 package asm
 
+import "io"
+
 // C12 (reduced, see DESIGN): the result of a parse does not depend on Go map
 // iteration order, and parsing / printing neither reads nor writes mutable
 // package-level state.  The same text is translated under insertion order and
@@ -129,23 +131,6 @@ func VfC12_RejectedLeavesNoTrace() {
 	vfAssert("C12.no-trace.no-shared-writes", writes == 0)
 	vfAssert("C12.no-trace.same-verdict", vfAnd(e0 == nil, e1 == nil))
 	vfAssert("C12.no-trace.same-output", vfAnd(s0 == s1, m0.String() == s0))
-}
-
-// VfC12_EntryPoints: ParseBytes is ParseString on the same content.
-//
-//vf:unwind 400
-func VfC12_EntryPoints() {
-	a := hLetterIn("a", 'a', 'c')
-	src := "@" + a + " = global i32 7\n"
-	m0, e0 := ParseString("a.ll", src)
-	m1, e1 := ParseBytes("a.ll", []byte(src))
-	vfReach("C12.entry")
-	vfAssert("C12.entry.same-verdict", vfAnd(e0 == nil, e1 == nil))
-	if e0 == nil {
-		if e1 == nil {
-			vfAssert("C12.entry.same-output", m0.String() == m1.String())
-		}
-	}
 }
 
 // VfC12_History: whatever was parsed earlier in the process (an accepted
@@ -279,4 +264,70 @@ func VfC12_Interleaved() {
 	vfAssert("C12.interleaved.accepted", vfAnd(len(wantA) > 0, len(wantB) > 0))
 	vfAssert("C12.interleaved.same-output", vfAnd(gotA == wantA, gotB == wantB))
 	vfAssert("C12.interleaved.race-free", vfNoRace())
+}
+
+// hChunkReader is an io.Reader over a text with one of the behaviours the
+// io.Reader contract allows: the data in one piece or in 16-byte pieces (a
+// first piece of one byte in mode 4), and io.EOF either together with the
+// last piece or by a further call that returns (0, io.EOF).
+type hChunkReader struct {
+	data    string
+	pos     int
+	mode    int
+	eofWith bool
+}
+
+func (r *hChunkReader) Read(p []byte) (int, error) {
+	if r.pos >= len(r.data) {
+		return 0, io.EOF
+	}
+	n := len(r.data) - r.pos
+	switch r.mode {
+	case 1, 3:
+		if n > 16 {
+			n = 16
+		}
+	case 4:
+		if r.pos == 0 {
+			n = 1
+		}
+	}
+	if n > len(p) {
+		n = len(p)
+	}
+	copy(p, r.data[r.pos:r.pos+n])
+	r.pos += n
+	if r.pos >= len(r.data) && r.eofWith {
+		return n, io.EOF
+	}
+	return n, nil
+}
+
+// VfC12_EntryPoints: the same (symbolic-token) text through asm.Parse with a
+// reader of every chunking / end-of-file behaviour, through ParseBytes and
+// through ParseString gives the same verdict and the same printed module; a
+// text that is rejected is rejected through every entry point.
+//
+//vf:unwind 600
+//vf:steps 100000000
+func VfC12_EntryPoints() {
+	a := hLetterIn("a", 'a', 'c')
+	src := "@" + a + " = global i32 1\n@q = global i32* @" + a + "\ndefine i32 @f(i32 %x) {\n\t%y = add i32 %x, 1\n\tret i32 %y\n}\n"
+	if vfChoice("valid", 2) == 1 {
+		// invalid: the last line uses an undefined global (so that a lost tail
+		// would turn a rejected text into an accepted one)
+		src += "@r = global i32* @undefined\n"
+	}
+	mode := vfChoice("mode", 5)
+	rd := &hChunkReader{data: src, mode: mode, eofWith: vfChoice("eof-with-data", 2) == 1}
+	m0, e0 := ParseString("t.ll", src)
+	m1, e1 := Parse("t.ll", rd)
+	m2, e2 := ParseBytes("t.ll", []byte(src))
+	vfReach("C12.entry-points")
+	vfObserveStr("src", src)
+	vfAssert("C12.entry-points.same-verdict", vfAnd((e0 == nil) == (e1 == nil), (e0 == nil) == (e2 == nil)))
+	if e0 == nil && e1 == nil && e2 == nil {
+		s0 := m0.String()
+		vfAssert("C12.entry-points.same-output", vfAnd(m1.String() == s0, m2.String() == s0))
+	}
 }
